@@ -96,6 +96,7 @@ class FakeHidDevice:
             link.tlog("open_fail_absent")
             raise OSError("open failed")
         self.opened = True
+        self.host_closed = False
         link.handles += 1
         link.open_handle = self
         link.tlog("open")
@@ -108,8 +109,9 @@ class FakeHidDevice:
     def close(self):
         link = self.link
         link._seam()
-        if self.opened:
-            self.opened = False
+        self.host_closed = True       # cython-hidapi: a handle the host closed (or never opened)
+        if self.opened:               # raises ValueError("not open") on use - unlike a handle whose
+            self.opened = False       # device went away (`opened` cleared by the scenario: write fails, read error)
             if link.open_handle is self:
                 link.open_handle = None
             link.tlog("close")
@@ -118,6 +120,8 @@ class FakeHidDevice:
     def write(self, data):
         link = self.link
         link._seam()
+        if getattr(self, "host_closed", True):
+            raise ValueError("not open")
         if not self.opened:
             return -1
         data = bytes(data)
@@ -210,6 +214,8 @@ class FakeHidDevice:
     def read(self, n, timeout_ms=0):
         link = self.link
         link._seam()
+        if getattr(self, "host_closed", True):
+            raise ValueError("not open")
         if not self.opened:
             raise OSError("read error")
         if self.rqueue:
